@@ -26,6 +26,12 @@ prop("C20", claimed=True, level="model_checking", engine="E-SEQ",
      note="Index family and write-size alphabet are bounded; multi-byte random damage is not enumerated (CRC32 gives no guarantee there).",
      design_ref="3/C20")
 
+prop("C15", claimed=True, level="model_checking", engine="E-SEQ",
+     technique="bounded-exhaustive enumeration of all key subsets x block lengths x all lookups / ranges / automata / merges / insertion orders on the real sstable Dictionary and fst TermDictionary against a BTreeMap",
+     text="Every subset of a 9-key (thorough 12-key) universe with 00/ff edges, empty key and shared prefixes, with block lengths forcing a block per key, is built and every get / ordinal conversion / successor search / range (all bound kinds incl. empty and inverted, limits) / prefix / automaton query is compared with a BTreeMap; structured sets up to 40000 keys cross block-index and layer boundaries; all pairs / triples of subsets are merged (sstable merge and TermMerger ordinal maps); every insertion sequence of <= 3 keys must be rejected iff not strictly increasing.",
+     note="Key universe and sizes are bounded; `limit` is checked per its documentation (a prefix of the unlimited answer with at least `limit` entries); automata are black boxes run by brute force; columnar's dictionary is exercised through C08.",
+     design_ref="3/C15")
+
 ALL = ["C%02d" % i for i in range(1, 21)]
 REASON_TODO = "check not built yet in this revision of /verif (design in DESIGN.md section 3); will be claimed when its engine lands"
 
